@@ -175,10 +175,12 @@ def match_known(known, pid, vj):
             continue
         if k.get("harness") and k["harness"] != vj["harness"]:
             continue
-        if "case" in k and k["case"] == vj["case"] and (
-                "config" not in k or k["config"] == vj["config"]):
-            return k
-        if "signature" in k and _sig_match(k["signature"], vj):
+        if "signature" in k:
+            # the signature alone decides (a `case` next to it is the documented witness, not a matcher: the same
+            # input can fail for another reason under another configuration)
+            if _sig_match(k["signature"], vj):
+                return k
+        elif "case" in k and k["case"] == vj["case"] and ("config" not in k or k["config"] == vj["config"]):
             return k
     return None
 
